@@ -1,6 +1,7 @@
 package c20
 
 import (
+	"fmt"
 	"os"
 	"path/filepath"
 	"strconv"
@@ -9,7 +10,9 @@ import (
 
 	"pgregory.net/rapid"
 
+	"verif/internal/chanrewrite"
 	"verif/internal/e2"
+	"verif/internal/gorun"
 	"verif/internal/pkit"
 )
 
@@ -26,6 +29,13 @@ func checks(c *pkit.Ctx) int {
 	return 1500
 }
 
+func modelChecks(c *pkit.Ctx) int {
+	if c.Thorough() {
+		return 60000
+	}
+	return 3000
+}
+
 func TestProp(t *testing.T) {
 	c := pkit.Load(prop)
 	c.Check(t, func(rt *rapid.T) {
@@ -33,10 +43,40 @@ func TestProp(t *testing.T) {
 		procs := []string{"1", "2", "4", "16"}[rapid.IntRange(0, 3).Draw(rt, "gomaxprocs")]
 		caselog := filepath.Join(c.Scratch, "caselog.txt")
 		os.Remove(caselog)
-		out := e2.RunCase(c, rt, s, e2.Options{Property: prop, Harness: "c20", Checks: checks(c), Go126: true, Race: true, Patterns: []string{"./p", "./p2"},
-			Env: []string{"GOMAXPROCS=" + procs, "VERIF_CASELOG=" + caselog}, CrashIsViolation: true})
+		var out *e2.Outcome
+		if os.Getenv("VERIF_C20_ENGINE") != "model" {
+			out = e2.RunCase(c, rt, s, e2.Options{Property: prop, Harness: "c20", Checks: checks(c), Go126: true, Race: true, Patterns: []string{"./p", "./p2"},
+				Env: []string{"GOMAXPROCS=" + procs, "VERIF_CASELOG=" + caselog}, CrashIsViolation: true})
+		}
 		_ = out
+		if os.Getenv("VERIF_C20_ENGINE") == "runtime" {
+			return
+		}
 		_ = strings.TrimSpace
+		// second engine: the generated helpers rewritten onto the model scheduler, interleavings enumerated
+		s2 := e2.ConcurrentSubject()
+		e2.RunCase(c, rt, s2, e2.Options{Property: prop, Harness: "c20m", Checks: modelChecks(c), Patterns: []string{"./p", "./p2"}, TestRun: "^TestHModel$",
+			Env: []string{"VERIF_MODEL_SHARD=" + strconv.Itoa(c.Shard%c.NShards), "VERIF_MODEL_NSHARDS=" + strconv.Itoa(c.NShards)},
+			AfterGenerate: func(dir string) error {
+				for _, pkg := range []string{"p", "p2"} {
+					_, model, declined, err := chanrewrite.ModelFor(dir, pkg)
+					if err != nil {
+						return err
+					}
+					if len(declined) > 0 {
+						c.Rep.Class("model-rewrite-declined")
+						return fmt.Errorf("the rewriter declined package %s (%v): only the real-runtime engine ran", pkg, declined)
+					}
+					if err := gorun.WriteFiles(dir, map[string]string{"model" + pkg + "/model.go": model}); err != nil {
+						return err
+					}
+				}
+				b, err := os.ReadFile(filepath.Join(gorun.VerifDir(), "subjectlib", "sched", "sched.go"))
+				if err != nil {
+					return err
+				}
+				return gorun.WriteFiles(dir, map[string]string{"sched/sched.go": string(b)})
+			}})
 	})
 }
 
